@@ -104,12 +104,19 @@ func judgeStdOutput(src []byte, paths []string, declared func(path string) []str
 // c18Variants: the ways in which the one-reference files are produced. 0: fresh File rendered once; 1: the second
 // render of the same File; 2: the File also carries a cgo preamble (directives only, nothing refers to C); 3: the
 // references are first rendered as fragments with the File (RenderWithFile), then the File is rendered.
-var c18Variants = []string{"fresh", "second-render", "with-cgo-preamble", "after-RenderWithFile"}
+var c18Variants = []string{"fresh", "second-render", "with-cgo-preamble", "after-RenderWithFile", "file-named-like-the-package"}
 
 func (sc stdRefCase) render() ([]byte, string) { return sc.renderVariant(0) }
 
 func (sc stdRefCase) renderVariant(variant int) ([]byte, string) {
 	f := jen.NewFile("p")
+	if variant == 4 && len(sc.Paths) > 0 {
+		// the generated file belongs to a package that is called like the (first) package it refers to: package log
+		// wrapping "log" — NewFile gives the File no path, so nothing is local
+		if names := stdDeclared(sc.Paths[0]); len(names) > 0 {
+			f = jen.NewFile(names[0])
+		}
+	}
 	f.PackagePrefix = sc.Prefix
 	if sc.Hints != nil {
 		f.ImportNames(sc.Hints)
@@ -338,7 +345,7 @@ func runC18(r *mon.Run) {
 		r.Inconclusive(fmt.Sprintf("only %d package directories found under %s", len(std), oracle.GorootSrc()))
 		return
 	}
-	r.SetRule(fmt.Sprintf("every importable package directory of %s (%d; cmd, testdata, vendor, _/. excluded), alone with and without PackagePrefix, each case produced four ways (fresh File; second render of the same File; File with a cgo preamble nothing refers to; after the references were rendered with RenderWithFile); every ordered pair (and group) of packages declaring the same name or sharing the last path element (modulo /vN); all packages in one file in two orders; then the same single-reference and pair cases with ImportNames(table produced by running /repo/gennames), and every entry of that table against the package clauses. Enumerated completely in both tiers. non-trivial = every case; distinct by (label, paths, prefix)", oracle.GorootSrc(), len(std)))
+	r.SetRule(fmt.Sprintf("every importable package directory of %s (%d; cmd, testdata, vendor, _/. excluded), alone with and without PackagePrefix, each case produced five ways (fresh File; second render of the same File; File with a cgo preamble nothing refers to; after the references were rendered with RenderWithFile; File whose package is named like the package referred to); every ordered pair (and group) of packages declaring the same name or sharing the last path element (modulo /vN); all packages in one file in two orders; then the same single-reference and pair cases with ImportNames(table produced by running /repo/gennames), and every entry of that table against the package clauses. Enumerated completely in both tiers. non-trivial = every case; distinct by (label, paths, prefix)", oracle.GorootSrc(), len(std)))
 	r.SetExhaustive(true)
 	r.Put("std_package_dirs", len(std))
 	c18NegControls(r)
